@@ -132,7 +132,7 @@ def mv_not(x1 : np.ndarray, out=None):
     :param out: An optional storage destination. If None, a new multi-valued array is returned.
     :return: A multi-valued array with the result.
     """
-    out = out or np.empty(x1.shape, dtype=np.uint8)
+    if out is None: out = np.empty(x1.shape, dtype=np.uint8)
     _mv_not(out, x1)
     return out
 
@@ -158,7 +158,7 @@ def mv_or(x1, x2, out=None):
     :param out: An optional storage destination. If None, a new multi-valued array is returned.
     :return: A multi-valued array with the result.
     """
-    out = out or np.empty(np.broadcast(x1, x2).shape, dtype=np.uint8)
+    if out is None: out = np.empty(np.broadcast(x1, x2).shape, dtype=np.uint8)
     _mv_or(out, x1, x2)
     return out
 
@@ -185,7 +185,7 @@ def mv_and(x1, x2, out=None):
     :param out: An optional storage destination. If None, a new multi-valued array is returned.
     :return: A multi-valued array with the result.
     """
-    out = out or np.empty(np.broadcast(x1, x2).shape, dtype=np.uint8)
+    if out is None: out = np.empty(np.broadcast(x1, x2).shape, dtype=np.uint8)
     _mv_and(out, x1, x2)
     return out
 
@@ -209,7 +209,7 @@ def mv_xor(x1, x2, out=None):
     :param out: An optional storage destination. If None, a new multi-valued array is returned.
     :return: A multi-valued array with the result.
     """
-    out = out or np.empty(np.broadcast(x1, x2).shape, dtype=np.uint8)
+    if out is None: out = np.empty(np.broadcast(x1, x2).shape, dtype=np.uint8)
     _mv_xor(out, x1, x2)
     return out
 
@@ -226,7 +226,7 @@ def mv_latch(d, t, q_prev, out=None):
     :param out: An optional storage destination. If None, a new multi-valued array is returned.
     :return: A multi-valued array for the latch output ``q``.
     """
-    out = out or np.empty(np.broadcast(d, t, q_prev).shape, dtype=np.uint8)
+    if out is None: out = np.empty(np.broadcast(d, t, q_prev).shape, dtype=np.uint8)
     out[...] = t & d & 0b011
     out[...] |= ~t & 0b010 & (q_prev << 1)
     out[...] |= ~t & 0b001 & (out >> 1)
@@ -248,7 +248,7 @@ def mv_transition(init, final, out=None):
     :param out: An optional storage destination. If None, a new multi-valued array is returned.
     :return: A multi-valued array with the result.
     """
-    out = out or np.empty(np.broadcast(init, final).shape, dtype=np.uint8)
+    if out is None: out = np.empty(np.broadcast(init, final).shape, dtype=np.uint8)
     out[...] = (init & 0b010) | (final & 0b001)
     out[...] |= ((out << 1) ^ (out << 2)) & 0b100
     unknown = (init == UNKNOWN) | (init == UNASSIGNED) | (final == UNKNOWN) | (final == UNASSIGNED)
